@@ -46,7 +46,7 @@ RULE = ("seeded generator (VERIF_SEED): d with 1..3 leading zero bytes, odd hex-
         "root, bad tags, bad lengths, x >= p, random x (half non-residues); (r, s) classes zero, 0x7f..0x81, top bit set, short, n-1, n-2, 33..260 bytes; "
         "ciphertexts with short and zero coordinates and payload lengths 0..300, crafted DER (33-byte, negative, wrong hash length, trailing bytes); PKCS#8 "
         "with crafted private-key octets (short, over-long with zeros, >= n); passwords {empty, 1 char, ASCII, UTF-8, 1 KiB, binary, trailing space} x 9 "
-        "wrong variants (one character, case, length, nil); every loader x all certificate/key material pairs (3 SM2 file pairs, 3 fresh SM2 pairs incl. "
+        "wrong variants (one character, case, length, nil), each against the PEM reader and the DER parsers ParsePKCS8PrivateKey / ParsePKCS8EcryptedPrivateKey; ParseSm2PrivateKey called directly (bare and full inner structure); genuine ciphertexts (Encrypt / EncryptAsn1 on one nonce stream, message lengths 1..1000) through CipherMarshal / CipherUnmarshal / DecryptAsn1 and against the model; every loader (in-memory and file-based on the same pairs) x all certificate/key material pairs (3 SM2 file pairs, 3 fresh SM2 pairs incl. "
         "leading-zero coordinates, 2 RSA, 1 ECDSA P-256, garbage, and for three SM2 certificates the key n-d: same X, other Y; the near-miss combinations of the dual loader are always included); composed PEM files for each loader (chain after / before the leaf, skipped blocks, PKCS#8 SM2 under 'EC PRIVATE KEY', SEC 1, encrypted, Ed25519, several key blocks, swapped inputs, empty). Non-trivial: input not empty; distinct = distinct case text")
 
 P = 0xFFFFFFFEFFFFFFFFFFFFFFFFFFFFFFFFFFFFFFFF00000000FFFFFFFFFFFFFFFF
@@ -182,6 +182,40 @@ def predicate(f, io):
             return False, "private key did not survive the password-protected PEM / PKCS#8 round trip"
         if tried != rejected:
             return False, "a wrong password was accepted (%s of %s rejected, %s returned the same key)" % (rejected, tried, samek)
+        if len(io) < 7 or int(io[5]) < 2 * (int(tried) - 1):
+            return False, "the wrong passwords were not tried against the DER entry points"
+        if io[5] != io[6]:
+            return False, "a wrong password was accepted by ParsePKCS8PrivateKey / ParsePKCS8EcryptedPrivateKey on the DER form (%s of %s rejected)" % (io[6], io[5])
+        return True, ""
+    if op == "EA":
+        if io[0] != "ok" or len(io) < 7:
+            return False, "Encrypt / EncryptAsn1 failed on a valid key and message"
+        raw, asn = _unhex(io[1]), _unhex(io[2])
+        msg = _unhex(f[3])
+        # independent reading of the ASN.1 form: SEQUENCE { INTEGER x, INTEGER y, OCTET STRING hash(32), OCTET STRING c }
+        def tlv(b, at):
+            tag, ln, at = b[at], b[at + 1], at + 2
+            if ln & 0x80:
+                n = ln & 0x7f
+                ln, at = int.from_bytes(b[at:at + n], "big"), at + n
+            return tag, b[at:at + ln], at + ln
+        try:
+            t, body, end = tlv(asn, 0)
+            parts, at = [], 0
+            while at < len(body):
+                tg, v, at = tlv(body, at)
+                parts.append((tg, v))
+            ok = (t == 0x30 and end == len(asn) and [p[0] for p in parts] == [2, 2, 4, 4]
+                  and len(raw) == 97 + len(msg) and raw[0] == 4
+                  and int.from_bytes(parts[0][1], "big") == int.from_bytes(raw[1:33], "big")
+                  and int.from_bytes(parts[1][1], "big") == int.from_bytes(raw[33:65], "big")
+                  and parts[2][1] == raw[65:97] and parts[3][1] == raw[97:] and len(parts[3][1]) == len(msg))
+        except (IndexError, ValueError):
+            ok = False
+        if not ok:
+            return False, "EncryptAsn1 output is not the ASN.1 form (x, y, hash, ciphertext) of the ciphertext Encrypt produces with the same nonce"
+        if io[3:7] != ["1", "1", "1", "1"]:
+            return False, "genuine ciphertext did not survive CipherMarshal / CipherUnmarshal / DecryptAsn1 (marshal=%s unmarshal=%s decrypt=%s method=%s)" % tuple(io[3:7])
         return True, ""
     if op == "LD":
         if f[2] in ("GMX509KeyPairs", "LoadGMX509KeyPairs"):
@@ -231,5 +265,5 @@ def predicate(f, io):
         if want and not got:
             return False, "%s rejected PEM input whose first certificate and first key block match" % f[2]
         return True, ""
-    # SD, CU, PK: decided by comparison with the model (decoders of arbitrary bytes)
+    # SD, CU, PK, PS: decided by comparison with the model (decoders of arbitrary bytes)
     return True, ""
